@@ -70,8 +70,9 @@ theorem Table.readFooter_rejects (file size : Nat) (w : World) (content : Bytes)
       Footer.tryDecode_bad_magic _ (Or.inr (footerBuf_bad_magic content n (hsz ▸ hs48) hn hbad'))
     have hnormal : (if size - 48 > content.length then 0 else min 48 (content.length - (size - 48))) = 48 := by
       rw [if_neg (by omega)]; omega
-    show ∃ w' c, M.bind' (readAt file (size - 48) 48) _ w = (w', .err c) ∧ _
-    unfold M.bind' readAt
+    show ∃ w' c, M.bind' (readBytes file ⟨size - 48, 48⟩) _ w = (w', .err c) ∧ _
+    unfold M.bind' readBytes readAt
+    dsimp only
     cases hsch : w.sched with
     | nil =>
       simp only [hf, hnormal]
